@@ -106,6 +106,12 @@ class OracleUnsupported(Exception):
     """The formula / tree has a shape this oracle deliberately does not judge."""
 
 
+class OracleAmbiguous(OracleUnsupported):
+    """Two defensible readings of the documentation give different verdicts
+    (currently only ``level`` when an argument node is itself labelled with the
+    level nonterminal, see :func:`bounded.refpred.level`)."""
+
+
 class OracleUndecided(Exception):
     """Z3 answered ``unknown`` for a ground SMT atom."""
 
@@ -538,6 +544,14 @@ def _eval_structural(formula, beta: Beta, ctx: _Ctx) -> bool:
             raise OracleUnsupported(f"{name}: argument {arg!r} should be a string literal")
         strings.append(arg)
     paths = [_tree_path(arg, beta, ctx) for arg in args[n_strings:]]
+    if name == "level":
+        with_self, without_self = refpred.level_readings(ctx.tree, *strings, *paths)
+        if with_self != without_self:
+            raise OracleAmbiguous(
+                f"level{tuple(strings)} at {paths}: include_self={with_self}, "
+                f"exclude_self={without_self}"
+            )
+        return with_self
     return bool(function(ctx.tree, *strings, *paths))
 
 
